@@ -66,6 +66,30 @@ example :
     ((introspect s).types.filter (·.name == "I")).map (fun t => (t.possibleTypes.getD []).map TRef.name) = [["O", "O"]] := by
   decide +kernel
 
+/-! ## What the possible types, interfaces and reference kinds are -/
+
+/-- the possible types of a described interface are exactly the described object types that list it -/
+theorem interface_possibleTypes_spec (s : Schema) (supplied : List String) (n : String) (fs : List FieldDefS) (rt : Bool) (d : String) (o : String) :
+    o ∈ ((describeType (allTypes s) (closureDefs s supplied) (.interface n fs rt d)).possibleTypes.getD []).map TRef.name ↔
+      ∃ ifaces ofs ito od, TypeDef.object o ifaces ofs ito od ∈ closureDefs s supplied ∧ n ∈ ifaces := by
+  simp only [describeType, Option.getD_some, List.map_map, Function.comp_def, name_describeRef_named, List.map_id']
+  exact mem_implementers _ n o
+
+/-- the possible types of a union are its configured members, in order -/
+theorem union_possibleTypes_spec (all defs : List TypeDef) (n : String) (ms : List String) (rt : Bool) (d : String) :
+    ((describeType all defs (.union n ms rt d)).possibleTypes.getD []).map TRef.name = ms := by
+  simp [describeType, Function.comp_def, name_describeRef_named]
+
+/-- the interfaces of an object are the configured ones, in order -/
+theorem object_interfaces_spec (all defs : List TypeDef) (n : String) (ifaces : List String) (fs : List FieldDefS) (ito : Bool) (d : String) :
+    ((describeType all defs (.object n ifaces fs ito d)).interfaces.getD []).map TRef.name = ifaces := by
+  simp [describeType, Function.comp_def, name_describeRef_named]
+
+/-- a reference carries the kind of the type it names -/
+theorem ref_kind_spec (all : List TypeDef) (n : String) (td : TypeDef) (h : findType all n = some td) :
+    describeRef all (.named n) = .named (kindStr td) n := by
+  simp [describeRef, h]
+
 /-! ## Default values -/
 
 theorem metaTypes_wfInputTypes : wfInputTypes metaTypes = true := by decide +kernel
